@@ -2,7 +2,8 @@
 (* C15 - generator of reply datagrams: well-formed replies built from record *)
 (* lists, and the hostile families of the property's quantifier: truncation  *)
 (* at every offset, inflated record counts, compression pointers forming     *)
-(* loops / pointing forward / outside the packet, wrong rdlength, reserved   *)
+(* loops (pure pointer cycles AND cycles through 1-3 ordinary labels) /      *)
+(* pointing forward / outside the packet, wrong rdlength, reserved           *)
 (* label types, other rcodes / flags.  Bytes 0-1 (the id) are a placeholder: *)
 (* the driver writes the id of the real query there.                         *)
 EXTENDS DnsReply
@@ -75,9 +76,35 @@ FlagMuts(ks) ==
    T("opcode2", Reply(37248, ks, <<>>)), T("aa", Reply(34176, ks, <<>>)), T("noflags", Reply(32768, ks, <<>>))}
 Extras(ks) == {T("good+ar", Reply(33152, ks, <<"A2">>)), T("good+ar2", Reply(33152, ks, <<"CL", "TX">>))}
 
+\* ---- names that loop THROUGH ordinary labels: n labels at offset `off`, then a pointer back to `off` (or into the loop)
+CycLabels == << <<1, 120>>, <<2, 121, 122>>, <<1, 119>> >>
+RECURSIVE CatLabels(_)
+CatLabels(n) == IF n = 0 THEN <<>> ELSE CatLabels(n - 1) \o CycLabels[n]
+CycName(off, n, into) == CatLabels(n) \o <<192 + (off + into) \div 256, (off + into) % 256>>
+ARec(owner) == RecHdr(owner, 1, <<0, 0, 0, 7>>, 4) \o <<10, 9, 8, 7>>
+LabelCycles ==
+  UNION {
+    {\* in the question name
+     T("cyc-question", Hdr(33152, 1, 1, 0, 0) \o CycName(12, n, into) \o <<0, 1, 0, 1>> \o ARec(PtrQ)),
+     \* in the owner name of an answer
+     T("cyc-owner", Hdr(33152, 1, 1, 0, 0) \o Question \o ARec(CycName(22, n, into))),
+     \* in the rdata of a CNAME (owner = pointer to the question name: rdata at 22 + 12)
+     T("cyc-cname", Hdr(33152, 1, 1, 0, 0) \o Question \o RecHdr(PtrQ, 5, <<0, 0, 0, 9>>, Len(CycName(34, n, into))) \o CycName(34, n, into)),
+     \* the loop lies in the (skipped) rdata of a TXT record and is entered through the owner pointer of a later A record ...
+     T("cyc-via-ptr", Hdr(33152, 1, 2, 0, 0) \o Question \o RecHdr(PtrQ, 16, <<0, 0, 0, 9>>, Len(CycName(34, n, into))) \o CycName(34, n, into)
+                      \o ARec(<<192, 34>>)),
+     \* ... or after a label of its own
+     T("cyc-label-ptr", Hdr(33152, 1, 2, 0, 0) \o Question \o RecHdr(PtrQ, 16, <<0, 0, 0, 9>>, Len(CycName(34, n, into))) \o CycName(34, n, into)
+                      \o ARec(<<1, 118, 192, 34>>)),
+     \* after a good answer (something was already collected when the loop is met)
+     T("cyc-after-good", Hdr(33152, 1, 2, 0, 0) \o Question \o ARec(PtrQ) \o ARec(CycName(38, n, into)))}
+    : n \in 1..3, into \in {0, 2}}      \* into = 2: the pointer re-enters the loop at its second label (n >= 2), not at its head
+\* in a generated reply: the pointer that follows a one-byte label ("e" + pointer of the CC record) points back at that label
+PtrLabelLoops(d) == {T("ptr-label-loop", Set(d, o + 1, o - 2)) : o \in {x \in RealPtrs(d) : x >= 14 /\ B(d, x - 2) = 1 /\ B(d, x - 1) >= 97}}
+
 \* everything derived from one record list
 Family(ks) ==
   LET g == Good(ks) IN
-  {T("good", g)} \cup Truncs(g) \cup Counts(g) \cup PtrMuts(g) \cup LabelMuts(g) \cup RdMuts(g) \cup FlagMuts(ks) \cup Extras(ks)
-All(n) == UNION {Family(ks) : ks \in Lists(n)}
+  {T("good", g)} \cup Truncs(g) \cup Counts(g) \cup PtrMuts(g) \cup PtrLabelLoops(g) \cup LabelMuts(g) \cup RdMuts(g) \cup FlagMuts(ks) \cup Extras(ks)
+All(n) == LabelCycles \cup UNION {Family(ks) : ks \in Lists(n)}
 =============================================================================
